@@ -4,6 +4,7 @@ import UscxmlVerif.Proofs.Select
 import UscxmlVerif.Proofs.CfgInv
 import UscxmlVerif.Proofs.Interval
 import UscxmlVerif.Proofs.Subtree
+import UscxmlVerif.Proofs.ExitSet
 /-!
 # C01 — the interpreter follows the W3C SCXML step algorithm
 
@@ -55,6 +56,21 @@ theorem selection_conflict_free_w3c_of_document (d : Doc) (late : Bool) (hwf : P
       i ≠ j → ∀ s, ¬ (s ∈ Spec.W3C.exitSetOf (flatten d late) S i ∧ s ∈ Spec.W3C.exitSetOf (flatten d late) S j) :=
   selection_conflict_free_w3c (flatten d late) (Proofs.Flatten.coherent_flatten d late hwf hroot)
     (Proofs.Subtree.intervalOK_flatten d late hwf hroot) config ev pf x S hcfg hplain
+
+/-- **the exit set of a micro-step is Appendix D's** (as a set): for every well-formed document, in every configuration of real
+states, for every event and every outcome of the conditions, the states LargeMicroStep is going to exit are exactly
+`computeExitSet` of the transitions it selected (transitions of real states with real targets; a transition into a
+history state is the recorded deviation `hist-domain`). Not covered: the *order* in which they are exited and what their
+exit handlers do - decided by the comparison with `Spec.W3C.run`. -/
+theorem exit_set_is_appendix_d_of_document (d : Doc) (late : Bool) (hwf : Proofs.Flatten.WFDoc d = true) (hroot : d.kind = .scxml)
+    (config : List Nat) (ev : Option String) (pf : List Nat) (xs : XS) (S : Spec.W3C.SState) (hS : S.config = config)
+    (hcfg : Proofs.Struct.ConfigOk (flatten d late) config)
+    (hplain : ∀ i ∈ (Large.selectLoop (flatten d late) config ev pf { x := xs }).transSet,
+      Properties.C05.plainTrans (flatten d late) (Model.Tables.tr (flatten d late) i) = true) (x : Nat) :
+    x ∈ (Large.selectLoop (flatten d late) config ev pf { x := xs }).exitSet ↔
+      x ∈ Spec.W3C.computeExitSet (flatten d late) S (Large.selectLoop (flatten d late) config ev pf { x := xs }).transSet :=
+  Proofs.ExitSet.large_exit_set_is_w3c (flatten d late) (Proofs.Flatten.coherent_flatten d late hwf hroot)
+    (Proofs.Subtree.intervalOK_flatten d late hwf hroot) config ev pf xs S hS hcfg hplain x
 
 /-- the numbering hypothesis holds of a concrete chart (and `Coherent` of the same one, `Properties.C05.sample`) -/
 example : Proofs.Interval.IntervalOK Properties.C05.sample = true := by decide
